@@ -372,7 +372,7 @@ def run_c32(ctx):
         res = tlc.run("Malformed", SIM_CFG % (kd, plans, minmut), spec_dir=SPEC_DIR,
                       simulate={"num": max(1, n // workers), "depth": 26, "file": prefix + tag},
                       seed=ctx.seed + 1, deadlock=False, workers=workers, extra_env={"MALFORMED_TABLE": table_path},
-                      tag="c32sim", timeout=3000)
+                      tag="c32sim", timeout=40000)
         ctx.add_model(res, "Malformed-simulate/%s/%s" % (kd, "num" if minmut else "all"),
                       {"behaviours": n, "depth": 26, "MaxMut": 2, "MaxPieces": 3})
         if not res.ok:
@@ -428,7 +428,7 @@ def run_c32(ctx):
                                                "connection %d received different bytes than in a run without the tampered connection" % (c + 1),
                                                steps=_short(evs), expected=repr(run2.received(c)), actual=repr(run.received(c)),
                                                extra={"muts": b["muts"]}))
-    out = trace.validate("MalformedTrace", TRACE_CFG, SPEC_DIR, [e for _, e in trs], batch=ctx.pick(300, 600))
+    out = trace.validate("MalformedTrace", TRACE_CFG, SPEC_DIR, [e for _, e in trs], batch=ctx.pick(300, 600), timeout=40000)
     ctx.states += out.states
     ctx.transitions += out.generated
     if trs:
